@@ -20,6 +20,11 @@ func vSetDecOpts(o vDecOpts) {
 	XMLEscapeCharsDecoder(o.escape)
 	HandleXMPPStreamTag(false)
 	SetCheckTagToSkipFunc(nil)
+	if len(o.textKey) >= 4 {
+		SetGlobalKeyMapPrefix(o.textKey[:len(o.textKey)-4]) // "#text" -> "#", "_text" -> "_"
+	} else {
+		SetGlobalKeyMapPrefix("#")
+	}
 }
 
 func vResetDecOpts() {
@@ -105,6 +110,9 @@ func H_C01_decode_opts() {
 	o.simpleAsMap = vNondetBool()
 	o.keepSpaces = vNondetBool()
 	o.seq = vNondetBool()
+	if o.seq && vChoose(2) == 1 {
+		o.textKey = "_text" // reserved keys with another prefix (SetGlobalKeyMapPrefix)
+	}
 	o.escape = vNondetBool()
 	if vP("trees", 0, 1) == 1 {
 		ts := vTreeSpec{depth: 1, maxKids: vP("kids", 2, 2), maxAttrs: vP("attrs", 1, 1), nameAlpha: "aA", attrAlpha: "bB", textAlpha: "x &", textMax: 1, suffixes: []string{"-c"}}
@@ -124,18 +132,18 @@ func H_C01_decode_opts() {
 // map): the decoded structure is the documented one with each leaf cast independently
 func H_C01_decode_cast() {
 	co := vCastOpts{toInt: vNondetBool(), toFloat: vNondetBool(), toBool: vNondetBool()}
-	o := vDecOpts{attrPrefix: "-", textKey: "#text"}
+	o := vDecOpts{attrPrefix: "-", textKey: []string{"#text", "_text"}[vChoose(2)]}
 	o.seq = vNondetBool()
 	o.simpleAsMap = vNondetBool()
 	o.cast = func(s string, key string) interface{} {
 		v, _ := refCast(s, co)
 		return v
 	}
-	vals := []string{"1", "x", "true", "1.5", "-7", "0"}
+	vals := []string{"1", "x", "true", "1.5", "-7", "0", "010", "08", "0x1F", "1_0"}
 	k1 := &vXElem{name: "a", items: []vXItem{{kind: 1, text: vals[vChoose(len(vals))]}}}
-	k2 := &vXElem{name: vNondetString(1, 1, "ab"), items: []vXItem{{kind: 1, text: vals[vChoose(len(vals))]}}}
+	k2 := &vXElem{name: vNondetString(1, 1, "ab"), items: []vXItem{{kind: 1, text: vals[vChoose(6)]}}}
 	k3 := &vXElem{name: "c"}
-	root := &vXElem{name: "r", attrs: [][2]string{{"n", vals[vChoose(len(vals))]}},
+	root := &vXElem{name: "r", attrs: [][2]string{{"n", vals[[]int{0, 1, 2, 3, 6, 8}[vChoose(6)]]}},
 		items: []vXItem{{kind: 0, el: k1}, {kind: 0, el: k2}, {kind: 0, el: k3}}}
 	vSetCastOpts(co)
 	vC01tree(root, o, "")
